@@ -10,5 +10,6 @@ func init() {
 	register(C01{})
 	register(C02{})
 	register(C03{})
+	register(C04{})
 	register(C05{})
 }
